@@ -77,6 +77,7 @@ def run_case(case, repo):
             return case, "stale", stale
         env = dict(os.environ)
         env["VERIF_EVIDENCE_OUT"] = os.path.join(d, "evidence.json")
+        env["VERIF_NO_SELFTEST"] = "1"
         p = subprocess.run([sys.executable, "-B", os.path.join(HERE, "check.py"),
                             case["prop"], case.get("tier", "quick"), "--repo", d],
                            stdout=subprocess.PIPE, stderr=subprocess.STDOUT,
